@@ -342,7 +342,7 @@ class Chunk:
                 f"Cannot concatenate {data_type} chunks with different run ids: {run_ids}"
             )
 
-        if len(set(run_ids)) == 1:
+        if len(set(run_ids)) == 1 and run_ids[0] is not None:
             run_id = run_ids[0]
             superrun = None
         else:
